@@ -88,7 +88,7 @@ Fresh(l, cfg, prev) ==
    reqs |-> << >>, hmap |-> << >>, recn |-> 0,
    owed |-> << >>, aw |-> 0, sids |-> {},
    unres |-> {}, dcids |-> {}, pe |-> "", dcan |-> FALSE, taint |-> 0, connectLen |-> 0, d9b |-> FALSE,
-   lastDone |-> 0, pingAt |-> -1, pingOut |-> FALSE, overslept |-> TRUE, wake |-> -1,
+   lastDone |-> 0, afterPing |-> FALSE, pingAt |-> -1, pingDoneAt |-> -1, pingOut |-> FALSE, overslept |-> TRUE, wake |-> -1,
    dead |-> FALSE, ioDead |-> << 0, 0, 0 >>, lastio |-> << 0, 0, 0 >>,
    sum |-> EmptySum, prev |-> prev, mark |-> 0,
    lastobs |-> [live |-> FALSE, q |-> TRUE, h |-> << >>],
@@ -170,12 +170,16 @@ Truth(h, k) ==
 \* `overslept`: since the last client packet, time moved while the application was not waiting in
 \* poll/recv, or past the deadline the client had asked to be woken at; then the gap is the
 \* application's doing, not the client's.
-C10Gap(h) ==
+\* D10 (open): while a PINGREQ is unanswered the client sends no further PINGREQ until the PINGRESP
+\* arrives or the 5 s round-trip bound expires, whatever the keep-alive; signature: effective
+\* keep-alive below 5 s, a PINGREQ is outstanding (or was answered at this very instant) and the
+\* silence is no longer than the round-trip bound.
+C10Gap(h, afterPing) ==
   LET gap == h.now - h.lastDone
       h1 == IF h.up /\ h.K > 0 /\ ~h.overslept /\ h.op.name \in {"poll", "recv"}
             THEN CheckKF(Tick(h, "C10"), gap <= h.K, "C10",
                          "time between consecutive client packets exceeds the keep-alive",
-                         "D10", h.K < 5000 /\ h.pingAt >= 0)
+                         "D10", h.K < 5000 /\ (h.pingAt >= 0 \/ h.pingDoneAt = h.now) /\ gap <= 5000)
             ELSE h
   IN [h1 EXCEPT !.lastDone = h.now, !.overslept = FALSE]
 
@@ -186,7 +190,7 @@ C10Yield(h, wake) ==
   LET h1 == IF h.K > 0 /\ ~h.overslept
             THEN CheckKF(Tick(h, "C10"), wake >= 0 /\ wake <= h.lastDone + h.K, "C10",
                          "client sleeps past the keep-alive without sending anything",
-                         "D10", h.K < 5000 /\ h.pingAt >= 0)
+                         "D10", h.K < 5000 /\ h.pingAt >= 0 /\ wake >= 0 /\ wake <= h.pingAt + 5000)
             ELSE h
       h2 == IF h.pingAt >= 0
             THEN Check(h1, h.now < h.pingAt + 5000 /\ wake >= 0 /\ wake <= h.pingAt + 5000, "C10",
@@ -330,7 +334,7 @@ OnOut(h, pkt) ==
                   /\ LET k == FindReq(h, d) IN k # 0 /\ h.reqs[k].cc < h.ci
       h0 == [Tick(Tick2(h, "C01", "C09"), "C14") EXCEPT !.wn = @ + 1, !.lastout = (pkt[1] \div 16),
                       !.sum.out = Append(@, << h.ci, ClearDup(pkt) >>),
-                      !.pingOut = (pkt[1] \div 16 = PINGREQ)]
+                      !.pingOut = (pkt[1] \div 16 = PINGREQ), !.afterPing = (pkt[1] \div 16 = PINGREQ)]
       h1a == CheckKF(h0, d0.st = "ok", "C01", "outbound packet is not a well-formed MQTT 5 client packet",
                      "D3", d0.st = "badflags" /\ d0.fl = 10 /\ replayed)
       \* once the outbound stream is garbled nothing written later on this transport can be attributed
@@ -345,7 +349,7 @@ OnOut(h, pkt) ==
                       \/ Len(pkt) <= h.ack.maxpkt,
                   "C14", "outbound packet longer than the broker's Maximum Packet Size")
       \* C10: time between consecutive client packets while the application waits in poll
-      h5 == C10Gap(h4)
+      h5 == C10Gap(h4, h.afterPing)
   IN IF d.st # "ok" THEN h5
      ELSE IF d.t = CONNECT THEN OutConnect([h5 EXCEPT !.connectLen = Len(pkt)], d)
      ELSE IF d.t = PUBLISH /\ d.q = 0 THEN OutPublishQ0(h5, d, pkt)
@@ -452,7 +456,7 @@ OnIn(h, pkt) ==
   ELSE IF d.t = PUBREL THEN
        [h0 EXCEPT !.owed = Append(@, OwedAck(PUBCOMP, d.id, IF d.id \in h.sids THEN 0 ELSE 146)),
                   !.sids = @ \ {d.id}]
-  ELSE IF d.t = PINGRESP THEN [h0 EXCEPT !.pingAt = -1]
+  ELSE IF d.t = PINGRESP THEN [h0 EXCEPT !.pingAt = -1, !.pingDoneAt = h.now]
   ELSE IF d.t = DISCONNECT THEN [h0 EXCEPT !.op.disc = TRUE]
   ELSE h0
 
@@ -508,8 +512,12 @@ ObsChecks(h0, obs) ==
             THEN CheckKF(h1, wrong = {}, "C18", "an operation handle misreports its status",
                          "D15", \A i \in wrong :
                                   /\ obs.h[i] = "p" /\ Truth(h, h.hmap[i]) = "c"
-                                  /\ \E j \in 1..Len(h.reqs) : j # h.hmap[i] /\ InFlight(h, j)
-                                         /\ h.reqs[j].id = h.reqs[h.hmap[i]].id)
+                                  \* a later operation that may hold the same identifier: seen on the
+                                  \* wire with it, or enqueued but not yet seen (identifier unknown)
+                                  /\ \E j \in (h.hmap[i] + 1)..Len(h.reqs) :
+                                         /\ h.reqs[j].ep = h.epoch /\ h.reqs[j].ph # "done"
+                                         /\ h.reqs[j].st \in {"acc", "unk", "pend"}
+                                         /\ h.reqs[j].id \in {0, h.reqs[h.hmap[i]].id})
             ELSE h1
       \* C02 / C03: an accepted, unacknowledged request is still held
       held == {k \in 1..Len(h.reqs) : InFlight(h, k)}
@@ -789,8 +797,13 @@ Step(h0, e) ==
     [] e.e = "rerr" -> [IoOnDead(h) EXCEPT !.op.fault = TRUE]
     [] e.e = "yield" -> C10Yield(h, e.wake)
     [] e.e = "adv" ->
+         \* time that passes while the client keeps running (it re-polls read without yielding,
+         \* e.spin) is not the application oversleeping
          [h EXCEPT !.now = e.to,
-                   !.overslept = @ \/ ~(h.op.name \in {"poll", "recv"}) \/ h.wake < 0 \/ e.to > h.wake]
+                   \* a deadline that was already over when the client named it means "wake me at
+                   \* once": it keeps being polled, time that passes then is not oversleeping either
+                   !.overslept = @ \/ (~e.spin /\ (~(h.op.name \in {"poll", "recv"}) \/ h.wake < 0
+                                                   \/ (h.wake > h.now /\ e.to > h.wake)))]
     [] e.e = "b" -> DrainBroker([h EXCEPT !.btail = @ \o e.bytes])
     [] e.e = "ret" -> StepRet(h, e)
     [] e.e = "cancel" -> StepCancel(h, e)
